@@ -464,6 +464,22 @@ pub struct Ep<P: Pid> {
     pub m: Mdl,
 }
 
+/// a freshly constructed real connection with the configuration's options applied
+pub fn fresh_conn<P: Pid>(cfg: &EpCfg, ver: Option<Ver>) -> ConnBox<P> {
+    let mut conn = ConnBox::<P>::new(cfg.role, ver);
+    conn.set_auto_pub_response(cfg.auto_pub);
+    conn.set_auto_ping_response(cfg.auto_ping);
+    if cfg.offline {
+        conn.set_offline_publish(true);
+    }
+    conn.set_auto_map(cfg.auto_map);
+    conn.set_auto_replace(cfg.auto_replace);
+    if cfg.pingresp_to != 0 {
+        conn.set_pingresp_recv_timeout(cfg.pingresp_to);
+    }
+    conn
+}
+
 impl<P: Pid> Ep<P> {
     pub fn new(cfg: Arc<EpCfg>) -> Self {
         let mut conn = ConnBox::<P>::new(cfg.role, cfg.ver);
